@@ -52,3 +52,15 @@ pub open spec fn be32_bytes(v: u32) -> Seq<u8> {
 pub open spec fn end_request_bytes(id: u16, app: u32, st: ProtocolStatus) -> Seq<u8> {
     hdr_bytes(RecordType::EndRequest, id, 8, 0) + be32_bytes(app) + seq![status_code(st), 0u8, 0u8, 0u8]
 }
+// FCGI_BeginRequestBody: role (big-endian u16), flags byte (all bits retained), 5 reserved bytes
+pub open spec fn role_of(v: u16) -> Option<Role> {
+    if v == 1 { Some(Role::Responder) } else if v == 2 { Some(Role::Authorizer) } else if v == 3 { Some(Role::Filter) } else { None }
+}
+pub open spec fn begin_decode(s: Seq<u8>) -> Result<body::BeginRequest, Error>
+    recommends s.len() == 8
+{
+    match role_of(be16(s[0], s[1])) {
+        Some(r) => Ok(body::BeginRequest { role: r, flags: RequestFlags { bits: s[2] } }),
+        None => Err(Error::UnknownRole(be16(s[0], s[1]))),
+    }
+}
